@@ -12,6 +12,7 @@ theorem is evaluated on the real input.  A mismatch is reported as a broken corr
 difference itself).  The hypothesis itself is probed on the real code (capture probe)."""
 import json
 import re
+import time
 from fractions import Fraction
 
 import core
@@ -32,10 +33,12 @@ def _case(b, a):
 
 
 def run_pass(ctx, runs):
+    t0 = time.time()
     st = {"compared": 0, "equal_and_hypothesis_holds": 0, "hypothesis_failed": 0, "not_observed": 0,
           "not_modelled": 0, "coq_no_answer": 0, "renaming_exercised": 0}
     cases, seen = [], {}
-    for run in runs:
+    extra, st["extra_programs"] = U.extra_runs(ctx, lib)
+    for run in list(runs) + extra:
         pair = U.snapshot_pair(run, BEFORE, PASS)
         if pair is None:
             st["not_observed"] += 1
@@ -57,6 +60,7 @@ def run_pass(ctx, runs):
     probe = lib.run_tasks([{"kind": "capture_probe", "which": "ma", "timeout": 60}], timeout=60, jobs=1)[0]
     pcase = _probe_case(probe)
     U.run_cases(ctx, lib, "pma", cases + ([pcase] if pcase else []))
+    reported = 0
     for c in cases:
         ctx.coverage["obligations"] += c["n"]
         st["compared"] += c["n"]
@@ -68,6 +72,20 @@ def run_pass(ctx, runs):
         if any(x["var"] != y["var"] for x, y in zip(b["body"], a["body"])):
             st["renaming_exercised"] += c["n"]
         if not eq or not c["untouched"]:
+            st["mismatches"] = st.get("mismatches", 0) + c["n"]
+            if reported >= 3:
+                continue
+            reported += 1
+            sem = U.semantic_search(ctx, lib, run, b, a, f"sem_{PASS}_{cases.index(c)}")
+            if sem:
+                ctx.violation(f"pass:{PASS}:{run['text']}:{json.dumps(run['opts'], sort_keys=True)}",
+                              {"program_text": run["text"], "options": run["opts"], "pass": PASS, "n": sem[0], "observed": f"E({sem[1]})",
+                               "before_pass": sem[2], "after_pass": sem[3],
+                               "before_pass_program": [U.ga_text(x) for x in b["init"]] + ["while true:"] + [U.ga_text(x) for x in b["body"]],
+                               "after_pass_program": [U.ga_text(x) for x in a["init"]] + ["while true:"] + [U.ga_text(x) for x in a["body"]]},
+                              f"after {PASS} (options {run['opts']}) E({sem[1]}) after {sem[0]} iterations is {sem[3]}, but {sem[2]} before the "
+                              f"pass (reference semantics on Polar's two snapshots)\n{run['text']}")
+                continue
             what = (f"{PASS}: Polar's output differs from the model PassMultiAssign.multi_assign "
                     + (f"at loop-body assignment {d}" if not eq else "outside the loop body (initial block / guard changed)")
                     + f" (options {run['opts']}); theorem C02_multi_assign_preserves no longer covers the code\n{run['text']}")
@@ -88,6 +106,7 @@ def run_pass(ctx, runs):
         ctx.coverage["discharged"] += c["n"]
     _probe_report(ctx, probe, pcase, st)
     ctx.coverage.setdefault("pass_models", {})[PASS] = st
+    print(f"  [pass {PASS}] " + " ".join(f"{k}={v}" for k, v in st.items() if isinstance(v, int)) + f" wall={time.time() - t0:.1f}s", flush=True)
     ctx.coverage["trusted_base"].append(
         "harness/pass_multiassign.py, flatpass_util.py, core.ga_coq: Polar's IfTransformer/MultiAssignTransformer snapshots -> "
         "Coq terms; PassFlatCmp.gas_eq (unverified comparison up to polynomial normal form: can hide a mismatch, cannot make a theorem false)")
